@@ -73,7 +73,7 @@ let gen st tier =
   (* arrays far longer than any pre-allocation bound a decoder might use *)
   let long_arrays = List.map (fun n ->
       Stream (4096, 100000, [ V (A (Some (List.init n (fun i -> if i mod 3 = 0 then I (string_of_int i) else B (Some (string_of_int i)))))); V (S "NEXT") ], true))
-      ([ 1023; 1024; 1025 ] @ (if thorough then [ 3000; 70000 ] else [ 3000 ])) in
+      ([ 1023; 1024; 1025 ] @ (if thorough then [ 3000; 8000 ] else [ 3000 ])) in
   let vals = List.init (8 * k) (fun _ -> gen_tree st 2) @ [ B (Some "ab"); A (Some [ B (Some "SET"); B (Some "k"); I "-1025" ]); S "OK"; A None ] in
   let corrupt = List.concat_map (fun t ->
     let e = enc_model t in
